@@ -650,6 +650,37 @@ def _except_handler_b_handler():
 
 out["except_handler_block"] = _except_handler_b_handler()
 
+# ---------------------------------------------------------------- what the with-statement's exception handler starts with
+def _with_handler_prefix():
+    """opnames from the handler target of a `with` block up to and including WITH_EXCEPT_START"""
+    src = "def f(cm):\n    with cm as x:\n        body(x)\n    return 1\n"
+    ns = {}
+    exec(compile(src, "<probe>", "exec"), ns)
+    code = ns["f"].__code__
+    insns = list(dis.get_instructions(code))
+    by_off = {i.offset: k for k, i in enumerate(insns)}
+    targets = []
+    if sys.version_info >= (3, 11):
+        bc = dis.Bytecode(code)
+        for e in bc.exception_entries:
+            targets.append(e.target)
+    else:
+        targets = [i.argval for i in insns if i.opname in ("SETUP_WITH", "SETUP_ASYNC_WITH")]
+    out_ = []
+    for t in sorted(set(targets)):
+        k = by_off.get(t)
+        if k is None:
+            continue
+        seq = []
+        for i in insns[k:k + 4]:
+            seq.append(i.opname)
+            if i.opname == "WITH_EXCEPT_START":
+                out_.append(seq)
+                break
+    return out_
+
+out["with_handler_prefix"] = _with_handler_prefix()
+
 out["stdlib_module_names"] = sorted(getattr(sys, "stdlib_module_names", []))
 
 json.dump(out, sys.stdout)
